@@ -10,6 +10,10 @@ From S4.Model Require Import Assemble Containers.
 Open Scope N_scope.
 
 Definition hexcat (l : list string) : bytes := flat_map unhex l.
+(* run-length form for files with long constant stretches (fields at flate2's 65535-byte limit):
+   each item is a hex chunk and how many times it is repeated *)
+Definition hexcatr (l : list (string * N)) : bytes :=
+  flat_map (fun p => concat (repeat (unhex (fst p)) (N.to_nat (snd p)))) l.
 Fixpoint index_from {A} (i : N) (l : list A) : list (N * A) :=
   match l with [] => [] | x :: r => (i, x) :: index_from (i + 1) r end.
 
@@ -41,10 +45,10 @@ Definition new_failed (o : obs_t) : bool := let '(e, _, _, _, _, _, _, _) := o i
 Definition nread (o : obs_t) : N := let '(_, _, _, _, _, _, k, _) := o in k.
 
 (* ---- gz: (bs, file, plain of the FIRST member = what the decoder yields, read schedule, observed) *)
-Definition gz_case_t := (N * list string * list string * list N * obs_t)%type.
+Definition gz_case_t := (N * list (string * N) * list string * list N * obs_t)%type.
 Definition gz_case_bad (c : gz_case_t) : list N :=
   let '(bs, fh, ph, sched, o) := c in
-  let f := hexcat fh in
+  let f := hexcatr fh in
   let plain := hexcat ph in
   match gz_new f with
   | CErr _ => chk (new_failed o) 1
